@@ -147,6 +147,11 @@ func gen(g *kernel.Rng, seed uint64, tier string) *kernel.Plan {
 			p.Ops = append(p.Ops, tgt)
 			if g.Bool(0.3) {
 				mt := map[string]int64{"connect": 20, "publish": 20, "call": 20, "scs": 1, "was": 5, "spb": 6, "uc": 4}[tgt.K]
+				// messages of other types right in front of the awaited one: AMF3
+				// command/data, audio, video (a typed message wait must skip them)
+				for k := g.Range(0, 2); k > 0; k-- {
+					p.Ops = append(p.Ops[:len(p.Ops)-1], kernel.Op{K: "raw", T: 0, N: []int64{g.OneOf(17, 15, 8, 9, 18), int64(g.Range(1, 40)), int64(g.U32())}}, p.Ops[len(p.Ops)-1])
+				}
 				p.Ops = append(p.Ops, kernel.Op{K: "waitmsg", T: 1, N: []int64{mt, g.OneOf(mt, 99)}})
 			} else {
 				p.Ops = append(p.Ops, kernel.Op{K: "wait", T: 1, S: []string{waitKinds[tgt.K]}})
@@ -256,6 +261,18 @@ func run(p *kernel.Plan) (res *kernel.Result) {
 			}
 			return true
 		case "wait", "waitmsg":
+			return true
+		case "raw":
+			if len(op.N) < 3 || op.N[1] < 1 || op.N[1] > 100000 {
+				return true
+			}
+			m := rtmp.NewStreamMessage(1)
+			m.MessageType = rtmp.MessageType(op.N[0])
+			m.Payload = kernel.Fill(int(op.N[1]), uint64(op.N[2]))
+			rec := sendRec{op: i, kind: fmt.Sprintf("raw:%d", op.N[0]), bytes: m.Payload, step0: s.S.Now()}
+			rec.err = e.Proto.WriteMessage(m)
+			rec.step1 = s.S.Now()
+			sd.sends = append(sd.sends, rec)
 			return true
 		case "expectcmd":
 			// wait for the next AMF0 command message, whatever packet type it decodes to
@@ -605,6 +622,10 @@ func evalDir(res *kernel.Result, p *kernel.Plan, from, to *side, name string) bo
 		must  bool     // success required (remarshal equal)
 	}
 	expect := func(sr sendRec, st0, st int, consume bool) exp {
+		if strings.HasPrefix(sr.kind, "raw:") {
+			// a raw message with an arbitrary body: DecodeMessage may fail or produce any packet
+			return exp{[]string{"", "*rtmp.CallPacket", "*rtmp.ConnectAppPacket", "*rtmp.PublishPacket", "*rtmp.ConnectAppResPacket", "*rtmp.CreateStreamResPacket"}, false}
+		}
 		switch sr.kind {
 		case "*rtmp.ConnectAppPacket", "*rtmp.PublishPacket", "*rtmp.SetChunkSize", "*rtmp.WindowAcknowledgementSize", "*rtmp.SetPeerBandwidth", "*rtmp.UserControl":
 			return exp{[]string{sr.kind}, true}
@@ -718,6 +739,12 @@ func evalDir(res *kernel.Result, p *kernel.Plan, from, to *side, name string) bo
 				sr := sent[j]
 				var hit bool
 				if rr.mode == "wait" {
+					if strings.HasPrefix(sr.kind, "raw:") {
+						// a typed packet wait decodes what it skips: audio, video or
+						// arbitrary bodies in front of it are outside the statement
+						res.Invalid = true
+						return true
+					}
 					ex := expect(sr, rr.step0, rr.step, false)
 					hit = ex.must && ex.types[0] == rr.want
 					if ex.must && len(ex.types) > 1 {
@@ -807,6 +834,11 @@ func evalDir(res *kernel.Result, p *kernel.Plan, from, to *side, name string) bo
 }
 
 func packetMsgType(kind string) byte {
+	if strings.HasPrefix(kind, "raw:") {
+		var t int
+		fmt.Sscanf(kind, "raw:%d", &t)
+		return byte(t)
+	}
 	switch kind {
 	case "*rtmp.SetChunkSize":
 		return 1
